@@ -150,7 +150,8 @@ check("C11",
       "marker and stays reusable. On the real code: for each TLC-generated schedule the clean run counts the K user "
       "callback invocations (Hamiltonian eval, custom solve_sylvester, and - for Hamiltonians given as a pre-blocked lazy "
       "series of opaque algebra elements - the product of two elements); a fault is injected at EVERY invocation 1..K "
-      "for each of Exception/RuntimeError/KeyboardInterrupt, plus sampled double faults; the schedule continues and "
+      "for each of Exception/RuntimeError/KeyboardInterrupt, plus sampled double faults (MC_Engine_live: under weak "
+      "fairness every request of the model comes back to the user, EveryRequestReturns); the schedule continues and "
       "everything is re-read; TLC validates each event stream against Engine.tla (Fault/Unwind/Raise actions, logged "
       "count of in-flight markers in the real caches = 0, exception class preserved, later values = undisturbed run).",
       ENG,
@@ -240,7 +241,9 @@ check("C19",
       "returns (scalar/shape/elements/mask) and validates the tracer's event stream against Engine.tla: Begin requires "
       "an absent cell (exactly once while cached), invalid expressions (open-ended or negative orders, out-of-range) "
       "must be refused with IndexError before anything is evaluated, self-referential definitions must end in "
-      "RuntimeError via PendingHit with all markers removed; finite-only indices give views with numpy's shape and the "
+      "RuntimeError via PendingHit with all markers removed (MC_EngineCyclic: exhaustively, for a self-referential "
+      "program, every interleaving with faults - never a value, never a hang (liveness under weak fairness), no marker "
+      "left, the well-founded outputs stay computable); finite-only indices give views with numpy's shape and the "
       "original's elements.",
       "Trusted: TLC/SANY 1.8.0, Json module, the harness tracer; the transcription covers at most one list component per "
       "expression and steps 1-2 (cross-checked against numpy's own indexing on 300 sampled expressions per shape).",
